@@ -1005,8 +1005,10 @@ def _part_n(task, rec):
 
 
 # --------------------------------------------------------------------------- part (iv): histories
-OPS_QUICK = ['pickle', 'html', 'latex', 'f12', 'dump', 'est_hp', 'est_p', 'recycle', 'toml', 'validate']
-OPS_THOROUGH = ['pickle', 'html', 'latex', 'f12', 'dump', 'est_hp', 'est_p', 'recycle', 'toml', 'validate', 'backup']
+OPS_QUICK = ['pickle', 'html', 'latex', 'f12', 'dump', 'est_hp', 'est_p', 'recycle', 'toml', 'pickle_B', 'validate']
+OPS_THOROUGH = ['pickle', 'html', 'latex', 'f12', 'dump', 'est_hp', 'est_h', 'est_p', 'recycle', 'toml', 'pickle_B',
+                'validate', 'backup']
+OTHER_MODEL = MODEL_NAME + '_b'   # a second model writing into the same directory
 ROOTS = ['empty', 'base', 'gap', 'blocked']
 HKIND = 'k2'
 HPOOL = 0
@@ -1090,6 +1092,8 @@ class History:
         self.written = {}                           # reference: pickle name -> beta values written by this history
         self.r, self.free, _ = pristine_results(HKIND, HPOOL, 0)
         self.b, _, _ = make_model(HKIND, HPOOL, 0)
+        self.rB, _, _ = pristine_results('k1', 1, 0)
+        self.rB.data.modelName = OTHER_MODEL
         self.last_est = None
         self.skipped = None
         self.b_ops = []
@@ -1112,6 +1116,8 @@ class History:
 
         if op == 'pickle':
             nn(m, 'pickle')
+        elif op == 'pickle_B':
+            nn(OTHER_MODEL, 'pickle')
         elif op == 'html':
             nn(m, 'html')
         elif op == 'latex':
@@ -1154,6 +1160,8 @@ class History:
         b, r = self.b, self.r
         if op == 'pickle':
             return [r.write_pickle()], None
+        if op == 'pickle_B':
+            return [self.rB.write_pickle()], self.rB
         if op == 'html':
             r.write_html()
             return [r.data.htmlFileName], None
@@ -1285,6 +1293,14 @@ class History:
                     return ('history-pickle-differs', f'op={op}', f'{nm}: {d}')
                 self.pickle_order.append(nm)
                 self.written[nm] = [bits(v) for v in src.data.betaValues]
+            elif op == 'pickle_B':
+                try:
+                    back = res.bioResults(pickle_file=nm, identification_threshold=self.rB.identification_threshold)
+                except Exception as e:
+                    return ('history-pickle-unreadable', f'op={op}', f'{nm}: {type(e).__name__}: {e}')
+                d = deep_diff(dict(vars(self.rB.data)), dict(vars(back.data)), 'data')
+                if d:
+                    return ('history-pickle-differs', f'op={op}', f'{nm}: {d}')
             elif nm.endswith('.html') and nm.startswith(m) and '_val_' not in nm and op != 'backup':
                 text = open(nm, encoding='utf-8').read()
                 src = obj if obj is not None else self.r
@@ -1320,7 +1336,8 @@ class History:
 
     def canon(self):
         snap = snapshot()
-        fields = (self.r.data.htmlFileName, self.r.data.pickleFileName, self.r.data.latexFileName, self.r.data.F12FileName)
+        fields = (self.r.data.htmlFileName, self.r.data.pickleFileName, self.r.data.latexFileName, self.r.data.F12FileName,
+                  self.rB.data.pickleFileName)
         # the model object's start values are a function of the sequence of estimating operations
         return repr((sorted(snap.items()), fields, tuple(self.b_ops), tuple(self.pickle_order)))
 
@@ -1355,7 +1372,7 @@ def _nontrivial_step(root, hist):
         return True
     if root != 'empty':
         return True
-    fam = {'pickle': 'p', 'est_p': 'p', 'html': 'h', 'est_h': 'h', 'est_hp': 'hp', 'latex': 'l', 'f12': 'f',
+    fam = {'pickle': 'p', 'pickle_B': 'p', 'est_p': 'p', 'html': 'h', 'est_h': 'h', 'est_hp': 'hp', 'latex': 'l', 'f12': 'f',
            'dump': 'd', 'toml': 't', 'backup': 'h'}
     mine = fam.get(op, '')
     return any(set(fam.get(o, '')) & set(mine) for o in hist[:-1])
